@@ -630,6 +630,18 @@ def gen_call(rng, case, kind):
         names = [nm for nm in gn if rng.random() < 0.4] or gn[:1]
         return ({"m": "set_params", "args": pos_vals(set_names(case)), "kwargs": {nm: valid_value(rng, nm) for nm in names},
                  "style": "mixed"}, {"kind": "kw_over_pos"})
+    if kind == "global" and tri and rng.random() < 0.35:
+        # a two-kind arc: one kind through the global name, the other named specifically for that arc (and nothing else)
+        two = sorted({nm.rsplit("_", 1)[0] for nm in gn if nm.endswith("_micro")} & {nm.rsplit("_", 1)[0] for nm in gn if nm.endswith("_spread")})
+        if two:
+            arc = rng.choice(two)
+            g1, other = rng.choice([("spread", "micro"), ("micro", "spread")])
+            glob = {g1: valid_value(rng, "x_" + g1)}
+            kw = dict(glob)
+            kw[f"{arc}_{other}"] = valid_value(rng, f"{arc}_{other}")
+            items = list(kw.items())
+            rng.shuffle(items)
+            return ({"m": "set_params", "args": [], "kwargs": dict(items), "style": "global"}, {"kind": "global", "global": glob})
     if kind == "global":
         globs = ["spread"] + (["growth", "micro"] if tri else [])
         for t, d in case["dists"].items():
